@@ -43,10 +43,11 @@ const (
 	KRes     // string-kinded type whose UnmarshalFlag lower-cases and rejects texts containing '!' (also used as a map key)
 	KBag     // struct whose UnmarshalFlag appends to what it holds (an accumulating unmarshaler)
 	KMode    // struct with state: its Complete method offers the values stored IN THE VALUE (used behind a pre-allocated pointer)
+	KLevel   // named int32 with a String method and nothing else: read and written as the plain integer it is
 	numTK
 )
 
-var tkNames = [...]string{"string", "bool", "int", "int8", "int16", "int32", "int64", "uint", "uint8", "uint16", "uint32", "uint64", "float32", "float64", "Duration", "Celsius", "Point", "Vocab", "Picky", "OnOff", "Res", "Bag", "Mode"}
+var tkNames = [...]string{"string", "bool", "int", "int8", "int16", "int32", "int64", "uint", "uint8", "uint16", "uint32", "uint64", "float32", "float64", "Duration", "Celsius", "Point", "Vocab", "Picky", "OnOff", "Res", "Bag", "Mode", "Level"}
 
 func (k TK) String() string { return tkNames[k] }
 
@@ -225,6 +226,11 @@ func (b *Bag) UnmarshalFlag(s string) error {
 // StrList is a named slice type (a rest positional of this type is still a list).
 type StrList []string
 
+// Level is a named integer type that only has a String method (no Marshaler, no Unmarshaler).
+type Level int32
+
+func (l Level) String() string { return "level<" + strconv.Itoa(int(l)) + ">" }
+
 // AccList is a named slice type that unmarshals itself: every argument it is handed is appended.
 type AccList []string
 
@@ -288,6 +294,8 @@ func scalarType(k TK) reflect.Type {
 		return reflect.TypeOf(Bag{})
 	case KMode:
 		return reflect.TypeOf(ModeVal{})
+	case KLevel:
+		return reflect.TypeOf(Level(0))
 	}
 	panic("bad TK")
 }
@@ -341,7 +349,7 @@ func (t TypeSpec) IsMulti() bool {
 }
 
 func isSignedKind(k TK) bool {
-	return (k >= KInt && k <= KInt64) || k == KFloat32 || k == KFloat64
+	return (k >= KInt && k <= KInt64) || k == KLevel || k == KFloat32 || k == KFloat64
 }
 
 // IsSignedNumeric mirrors the documented exception "a negative number given to a signed numeric option".
